@@ -523,6 +523,79 @@ theorem sorted_loadData (s : Bytes) (d : Data) (h : loadData s = .ok d) : Sorted
   | error e => simp [hp] at h
   | ok es => simp [hp] at h; subst h; exact sorted_fromEntries es
 
+/-! ### when `save_data` throws -/
+
+theorem saveData_throws_iff (m : Data) :
+    (∃ e, saveData m = .error e) ↔ ∃ p ∈ m, ¬ withinLimits p := by
+  constructor
+  · rintro ⟨e, he⟩
+    induction m with
+    | nil => simp [saveData] at he
+    | cons p rest ih =>
+      by_cases hp : withinLimits p
+      · simp only [saveData, encodeEntry_ok p hp] at he
+        cases hr : saveData rest with
+        | error e' =>
+          simp [hr] at he; subst he
+          obtain ⟨q, hq, hn⟩ := ih hr
+          exact ⟨q, List.mem_cons_of_mem _ hq, hn⟩
+        | ok b => simp [hr] at he
+      · exact ⟨p, List.mem_cons_self .., hp⟩
+  · rintro ⟨p, hp, hn⟩
+    cases h : saveData m with
+    | error e => exact ⟨e, rfl⟩
+    | ok bs =>
+      exfalso
+      have hlen : m.length ≤ bs.length := by have := saveData_length m bs h; omega
+      -- the encoder succeeded, so parsing the output gives entries within the limits; but it gives `m`
+      have key : ∀ (m : Data) (bs : Bytes), saveData m = .ok bs → ∀ q ∈ m, withinLimits q := by
+        intro m
+        induction m with
+        | nil => intro _ _ q hq; cases hq
+        | cons a rest ih =>
+          intro bs hs q hq
+          simp only [saveData] at hs
+          cases ha : encodeEntry a with
+          | error e => simp [ha] at hs
+          | ok x =>
+            cases hr : saveData rest with
+            | error e => simp [ha, hr] at hs
+            | ok y =>
+              rcases List.mem_cons.mp hq with rfl | hq
+              · simp only [encodeEntry, packHeader] at ha
+                constructor
+                · by_cases hk : q.1.length ≥ Gen.keyLimit
+                  · simp [hk] at ha
+                  · omega
+                · by_cases hk : q.1.length ≥ Gen.keyLimit
+                  · simp [hk] at ha
+                  · by_cases hd : q.2.value.length ≥ Gen.dataLimit
+                    · simp [hk, hd] at ha
+                    · omega
+              · exact ih y hr q hq
+      exact hn (key m bs h p hp)
+
+theorem saveData_error_kind (m : Data) (e : Err) (h : saveData m = .error e) :
+    e = .keyTooLong ∨ e = .valueTooLong := by
+  induction m with
+  | nil => simp [saveData] at h
+  | cons p rest ih =>
+    simp only [saveData] at h
+    cases ha : encodeEntry p with
+    | error e' =>
+      simp [ha] at h; subst h
+      simp only [encodeEntry, packHeader] at ha
+      by_cases hk : p.1.length ≥ Gen.keyLimit
+      · simp [hk] at ha; exact Or.inl ha.symm
+      · by_cases hd : p.2.value.length ≥ Gen.dataLimit
+        · simp [hk, hd] at ha; exact Or.inr ha.symm
+        · simp [hk, hd] at ha
+    | ok x =>
+      cases hr : saveData rest with
+      | error e' => simp [ha, hr] at h; subst h; exact ih hr
+      | ok y => simp [ha, hr] at h
+
+
 /-! ## Part 3: `valid_sid` -/
 
 theorem isLowXDigit_eq (x : UInt8) : Gen.isLowXDigit x.toNat = ((48 ≤ x && x ≤ 57) || (97 ≤ x && x ≤ 102)) := by
